@@ -378,21 +378,23 @@ impl NameCompressor {
             )
             .position(|(a, b)| a != b);
 
-            let Some(suffix_len) = suffix_len else {
+            let suffix_len = match suffix_len {
+                Some(suffix_len) => suffix_len,
+
                 // 'iter::zip()' simply ignores unequal iterators, stopping
                 // when either iterator finishes. Even though the two names
                 // had no mismatching bytes, one could be longer than the
                 // other.
-                if name.len() > entry.len() {
-                    // 'entry' is a proper suffix of 'name'. 'name' can be
-                    // compressed using 'entry', and will have at least one
-                    // more label before it. This label needs to be found and
-                    // hashed.
+                None if name.len() > entry.len() => {
+                    // The bytes of 'entry' are a proper suffix of the bytes
+                    // of 'name', but 'entry' need not begin on a label
+                    // boundary of 'name' (a label of 'name' can contain
+                    // bytes that look like the first labels of 'entry').
+                    // Find the label boundary below, like for a mismatch.
+                    entry.len()
+                }
 
-                    let rest = &name[..name.len() - entry.len()];
-                    let hash = Self::hash_label(Self::last_label(rest));
-                    return Some((i as u8, rest, hash, pos as u16));
-                } else {
+                None => {
                     // 'name' is a suffix of 'entry'. 'name' can be
                     // compressed using 'entry', and no labels will be left.
                     let rest = &name[..0];
